@@ -351,6 +351,36 @@ fn batch_mutations(ctx: &mut Ctx, prop: &str, n: usize) {
             ctx.rep.case(&format!("{} batch cancel out={:?}", c.desc(), out), Some(format!("sonic-batch/{}/{}/cancel{}", npoly, nl, pair.is_some())));
         }
         {
+            // value errors at two point labels that cancel EXACTLY under the challenges and the
+            // randomizer the verifier is about to draw (delta_1 = -xi_a*delta_0/(rho_1*xi_b)): the
+            // exceptional set of C05's `sum rho_k*Delta_k = 0`.  Outside the property's quantifier (the
+            // randomizer is sampled after the statement), so only `equals-model` is asserted: it pins
+            // down which randomizer scales which point label and which challenge meets which value.
+            let groups = crate::generic::group(&qs);
+            if groups.len() >= 2 {
+                let (_, pt0, l0) = &groups[0];
+                let (_, pt1, l1) = &groups[1];
+                let ka = (l0[0].clone(), *pt0);
+                let kb = (l1[0].clone(), *pt1);
+                if pt0 != pt1 {
+                    let xis = fresh_challenges(qs.len() + groups.len() + 2);
+                    let rho1 = crate::kzg::replay_u128(&rng, 1)[0];
+                    let (xa, xb) = (xis[0], xis[1 + l0.len()]);
+                    if let Some(inv) = ark_ff::Field::inverse(&(rho1 * xb)) {
+                        let d0 = rand_nonzero(&mut rng.clone());
+                        let d1 = -(xa * d0) * inv;
+                        let id = format!("{}/crafted-cancel", id0);
+                        let mut ev2 = ev.clone();
+                        *ev2.get_mut(&ka).unwrap() += d0;
+                        *ev2.get_mut(&kb).unwrap() += d1;
+                        let out = batch_check_scalar(ctx, &mut rng, &id, &c, &cs, &qs, &ev2, &ws, &rvs);
+                        ctx.rep.count(&format!("sonic/batch-crafted-cancel-{:?}", out));
+                        ctx.rep.case(&format!("{} batch crafted-cancel out={:?}", c.desc(), out), Some(format!("sonic-batch/{}/{}/crafted", npoly, nl)));
+                    }
+                }
+            }
+        }
+        {
             // one commitment changed / one witness changed (single-fault neighbourhood of the batch)
             let queried: Vec<usize> = (0..cs.len()).filter(|&i| qs.iter().any(|q| q.0 == cs[i].label)).collect();
             if let Some(&j) = queried.get(range(&mut rng, 0, queried.len().max(1) - 1)) {
@@ -457,12 +487,13 @@ fn admission(ctx: &mut Ctx, n: usize) {
         let deg = degs[range(&mut rng, 0, degs.len() - 1)].min(max_degree);
         let p = UniPoly::rand(deg, &mut rng);
         let cands: Vec<Option<usize>> = vec![None, None, Some(deg.max(1)), Some(deg.saturating_sub(1).max(1)), Some(supported), Some(supported + 1), Some(max_degree), Some(max_degree + 1),
-            tb.as_ref().and_then(|v| v.first().cloned()), tb.as_ref().and_then(|v| v.last().cloned())];
+            tb.as_ref().and_then(|v| v.first().cloned()), tb.as_ref().and_then(|v| v.last().cloned()),
+            tb.as_ref().and_then(|v| v.iter().cloned().filter(|b| *b >= deg).min()), tb.as_ref().and_then(|v| v.iter().cloned().filter(|b| *b >= deg).max())];
         let bound = cands[range(&mut rng, 0, cands.len() - 1)];
         // hiding around the window min(shb, bound)
-        let hbs: Vec<Option<usize>> = vec![None, None, Some(0), Some(shb), Some(shb + 1), bound.map(|b| b), bound.map(|b| b + 1)];
+        let hbs: Vec<Option<usize>> = vec![None, None, None, Some(0), Some(shb), Some(shb + 1), bound.map(|b| b.min(shb)), bound.map(|b| b), bound.map(|b| b + 1)];
         let hb = hbs[range(&mut rng, 0, hbs.len() - 1)];
-        let with_rng = range(&mut rng, 0, 5) != 0;
+        let with_rng = range(&mut rng, 0, 7) != 0;
         let lp = LabeledPolynomial::new("p".to_string(), p.clone(), bound, hb);
         let mut replay_rng = rng.clone();
         let draws: Vec<Fr> = (0..max_degree + 8).map(|_| Fr::rand(&mut replay_rng)).collect();
